@@ -365,6 +365,23 @@ def run(ctx):
     okr = rs and all(any(k.arg == "rng" and isinstance(k.value, ast.Attribute) and k.value.attr == "rng" for k in n.keywords) for n in rs)
     ctx.decide(bool(okr), "C20.kernel", sample.ident, loc_of(sample), f"all {len(rs)} resampling calls draw from the sampler's generator (rng=self.rng)",
                "a resampling call does not pass the sampler's generator: it falls back to a fresh unseeded one", disc="resample")
+    # nothing re-seeds a process-global generator from entropy (torch.seed() *sets* a fresh non-deterministic seed and returns it)
+    reseeds = []
+    for f_ in repo.all_functions():
+        for n_ in walk_no_nested(f_.node):
+            if isinstance(n_, ast.Call) and not n_.args and not n_.keywords:
+                d_ = dotted(n_.func) or ""
+                if d_ in ("torch.seed", "np.random.seed", "numpy.random.seed", "random.seed", "torch.cuda.seed", "torch.cuda.seed_all"):
+                    reseeds.append((f_, n_, d_))
+    ctx.decide(not reseeds, "C20.fresh", "package", loc_of(reseeds[0][0], reseeds[0][1]) if reseeds else "src/aspire",
+               "no call re-seeds a process-global generator from entropy",
+               (f"{reseeds[0][0].ident} calls {reseeds[0][2]}(), which re-seeds the global generator non-deterministically: every draw after it ignores the seed the user gave") if reseeds else "",
+               disc="reseed")
+    # a resumed run continues with the checkpointed generator state
+    from ..report import reuse as _reuse
+    from . import c11 as _c11
+    _reuse(ctx, _c11.run, ("C11.restore",), "C20res", "restore rule shared with C11: without the checkpointed generator state a resumed run draws from a fresh entropy-seeded generator",
+           only=lambda f: "rng_state" in f.key)
     # torch flows seed the global torch RNG from their seed argument
     try:
         btf = repo.cls("aspire.flows.torch.flows:BaseTorchFlow").methods["__init__"]
@@ -447,6 +464,8 @@ MUTANTS = [
       more=[("parameters=parameters,\n            rng=rng,\n            preconditioning_transform=preconditioning_transform,", "parameters=parameters,\n            preconditioning_transform=preconditioning_transform,")]),
     M("emcee SMC consumes the caller's dictionary", _E, "self.sampler_kwargs = dict(sampler_kwargs or {})", "self.sampler_kwargs = sampler_kwargs or {}", "C20.alias"),
     M("flow key parameter ignored", _JF, "self.key = key\n        self.loc = None", "self.key = jrandom.key(0)\n        self.loc = None", "C20.used"),
+    M("saving a torch flow re-seeds torch from entropy", "src/aspire/flows/torch/flows.py", "flow_grp = h5_file.create_group(path)\n        # Save config", "flow_grp = h5_file.create_group(path)\n        flow_grp.attrs[\"torch_seed\"] = str(torch.seed())\n        # Save config", "C20.fresh"),
+    M("generator state restored only for a matching class name", _B, "if rng_state is not None and hasattr(self.rng, \"bit_generator\"):", "if rng_state is not None and hasattr(self.rng, \"bit_generator\") and rng_state[\"bit_generator\"] == type(self.rng).__name__:", "C20res"),
     M("torch flow ignores seed 0", "src/aspire/flows/torch/flows.py", "torch.manual_seed(seed)", "if seed:\n            torch.manual_seed(seed)", "C20.seed"),
     M("torch flow not seeded", "src/aspire/flows/torch/flows.py", "torch.manual_seed(seed)", "pass", ("C20.seed", "C20.used")),
     M("routing sends everything to sample()", "src/aspire/aspire.py", "if k in sampler_init_kwargs and k != \"self\"\n        }", "if False\n        }", "C20.route"),
